@@ -1,5 +1,212 @@
 # Loaded by gen.py (M, T and the file-name constants are injected).  One block per property.
 
+# =============================================================================================== C01 / C17 (hardening)
+def _twin_edits(twin, only=None):
+    """Edits (file, old, new) of a confirmed twin patch: one per hunk, old = context + removed lines, new = context + added."""
+    import os as _os
+    here = _os.path.dirname(_os.path.abspath(__file__))
+    out, cur, f = [], None, None
+    for line in open(_os.path.join(here, '..', 'twins', twin, 'patch.diff'), encoding='utf-8').read().split('\n'):
+        if line.startswith('+++ b/'):
+            f = line[6:]
+        elif line.startswith('@@'):
+            cur = [f, [], []]
+            out.append(cur)
+        elif cur is not None and line[:1] in (' ', '-', '+') and not line.startswith(('--- ', '+++ ')):
+            if line[0] in ' -':
+                cur[1].append(line[1:])
+            if line[0] in ' +':
+                cur[2].append(line[1:])
+        elif line.startswith('diff '):
+            cur = None
+    eds = [(f, '\n'.join(o) + '\n', '\n'.join(n) + '\n') for f, o, n in out if only is None or f in only]
+    return eds
+
+
+def TW(prop, id, twin, only=None):
+    eds = _twin_edits(twin, only)
+    T(prop, id, eds[0][0], eds[0][1], eds[0][2], more=eds[1:])
+
+
+_VERIFY_LOOP_TAIL = """                issues = signature_issues | subkey_issues
+                if issues and issues.causes_signature_verify_to_fail:
+                    sigv.add_sigsubj(sig, self, subj, issues)
+                else:
+                    verified = self._key.verify(sig.hashdata(subj), sig.__sig__, getattr(hashes, sig.hash_algorithm.name)())
+                    if verified is NotImplemented:
+                        raise NotImplementedError(sig.key_algorithm)
+
+                    sigv.add_sigsubj(sig, self, subj, SecurityIssues.WrongSig if not verified else SecurityIssues.OK)
+"""
+_PRED = "        return bool(self & (\n            SecurityIssues.WrongSig\n            | SecurityIssues.Expired\n            | SecurityIssues.Disabled\n            | SecurityIssues.Invalid\n            | SecurityIssues.NoSelfSignature\n        ))"
+_GOOD = "        yield from (\n            sigsub\n            for sigsub in self._subjects\n            if not sigsub.issues\n            or (sigsub.issues and not sigsub.issues.causes_signature_verify_to_fail)\n        )"
+_BAD = "        yield from (\n            sigsub\n            for sigsub in self._subjects\n            if sigsub.issues and sigsub.issues.causes_signature_verify_to_fail\n        )"
+_BOOL = "        return all(\n            sigsub.issues is SecurityIssues.OK\n            or (sigsub.issues and not sigsub.issues.causes_signature_verify_to_fail)\n            for sigsub in self._subjects\n        )"
+_REC = "        self._subjects.append(self._sigsubj(issues, by, signature, subject))"
+_WRONGSIG_REC = "                    sigv.add_sigsubj(sig, self, subj, SecurityIssues.WrongSig if not verified else SecurityIssues.OK)"
+
+# ---- the confirmed twins of both properties, hunk by hunk (families: extend(generator) / append, if-else restructuring,
+#      temporaries, loops instead of comprehensions / all(), helper extraction, keyword construction, guard inversion)
+TW('C01', 'twin-C01-ref1', 'C01-ref1')
+TW('C01', 'twin-C01-ref2', 'C01-ref2')
+TW('C01', 'twin-C01-ref3', 'C01-ref3')
+TW('C01', 'twin-C01-ref4', 'C01-ref4')
+TW('C01', 'twin-C17-ref2', 'C17-ref2')
+TW('C17', 'twin-C01-ref2', 'C01-ref2')
+TW('C17', 'twin-C01-ref4', 'C01-ref4')
+TW('C17', 'twin-C17-ref1', 'C17-ref1')
+TW('C17', 'twin-C17-ref2', 'C17-ref2')
+TW('C17', 'twin-C17-ref3', 'C17-ref3')
+TW('C17', 'twin-C17-ref4', 'C17-ref4')
+
+# ---- C01.1: key list built with insert() and hashed in one loop (interp: list.insert)
+_REVOC = "            if self.type == SignatureType.SubkeyRevocation:\n                # hash the primary key first if this is a Subkey Revocation signature\n                _s = subject.parent.hashdata\n                _data += b'\\x99' + self.int_to_bytes(len(_s), 2) + _s\n\n            _s = subject.hashdata\n            _data += b'\\x99' + self.int_to_bytes(len(_s), 2) + _s\n"
+T('C01', 'twin-revocation-key-list', PGP, _REVOC,
+  "            hashed_keys = [subject]\n            if self.type == SignatureType.SubkeyRevocation:\n                hashed_keys.insert(0, subject.parent)\n\n            for key in hashed_keys:\n                _s = key.hashdata\n                _data += b'\\x99' + self.int_to_bytes(len(_s), 2) + _s\n")
+M('C01', 'revocation-key-list-order', PGP, _REVOC,
+  "            hashed_keys = [subject]\n            if self.type == SignatureType.SubkeyRevocation:\n                hashed_keys.insert(1, subject.parent)\n\n            for key in hashed_keys:\n                _s = key.hashdata\n                _data += b'\\x99' + self.int_to_bytes(len(_s), 2) + _s\n", 'C01.1')
+# ---- C01.2 (loop pair by binding, records by position/keyword, NotImplemented decided on path facts)
+T('C01', 'twin-extend-genexp', PGP, "                sspairs += [ (sig, subject) for sig in _filter_sigs(subject.__sig__) ]",
+  "                sspairs.extend((sig, subject) for sig in _filter_sigs(subject.__sig__))")
+T('C01', 'twin-outcome-ifelse', PGP, _WRONGSIG_REC,
+  "                    if verified:\n                        outcome = SecurityIssues.OK\n                    else:\n                        outcome = SecurityIssues.WrongSig\n                    sigv.add_sigsubj(sig, self, subj, outcome)")
+T('C01', 'twin-record-call-keywords', PGP, _WRONGSIG_REC,
+  "                    sigv.add_sigsubj(signature=sig, by=self, subject=subj, issues=SecurityIssues.WrongSig if not verified else SecurityIssues.OK)")
+T('C01', 'twin-ni-reversed', PGP, "                    if verified is NotImplemented:\n                        raise NotImplementedError(sig.key_algorithm)\n\n" + _WRONGSIG_REC,
+  "                    if NotImplemented is not verified:\n                        sigv.add_sigsubj(sig, self, subj, SecurityIssues.WrongSig if not verified else SecurityIssues.OK)\n                    else:\n                        raise NotImplementedError(sig.key_algorithm)")
+T('C01', 'twin-loop-names', PGP, "        for sig, subj in sspairs:\n            if self.fingerprint.keyid != sig.signer and sig.signer in self.subkeys:\n                sigv &= self.subkeys[sig.signer].verify(subj, sig)\n",
+  "        for pair in sspairs:\n            sig, subj = pair\n            if self.fingerprint.keyid != sig.signer and sig.signer in self.subkeys:\n                sigv &= self.subkeys[sig.signer].verify(subj, signature=sig)\n")
+M('C01', 'record-outer-subject', PGP, _WRONGSIG_REC,
+  "                    sigv.add_sigsubj(sig, self, subject, SecurityIssues.WrongSig if not verified else SecurityIssues.OK)", 'C01.2')
+M('C01', 'ni-compared-with-none', PGP, "                    if verified is NotImplemented:", "                    if verified is None:", 'C01.2')
+M('C01', 'ni-polarity', PGP, "                    if verified is NotImplemented:", "                    if verified is not NotImplemented:", 'C01.2')
+M('C01', 'delegate-outer-signature', PGP, "sigv &= self.subkeys[sig.signer].verify(subj, sig)", "sigv &= self.subkeys[sig.signer].verify(subj, signature)", 'C01.2')
+M('C01', 'delegate-keyword-swapped', PGP, "sigv &= self.subkeys[sig.signer].verify(subj, sig)", "sigv &= self.subkeys[sig.signer].verify(subject=sig, signature=subj)", 'C01.2')
+M('C01', 'outcome-ifelse-swapped', PGP, _WRONGSIG_REC,
+  "                    if verified:\n                        outcome = SecurityIssues.WrongSig\n                    else:\n                        outcome = SecurityIssues.OK\n                    sigv.add_sigsubj(sig, self, subj, outcome)", 'C01.2')
+# ---- C01.3 (interpreter paths; caller values by parameter position)
+_DSA_VERIFY = "        try:\n            self.__pubkey__().verify(sigbytes, subj, hash_alg)\n        except InvalidSignature:\n            return False\n        return True"
+T('C01', 'twin-verify-ok-flag', FL, _DSA_VERIFY,
+  "        ok = True\n        try:\n            self.__pubkey__().verify(sigbytes, subj, hash_alg)\n        except InvalidSignature:\n            ok = False\n        return ok")
+T('C01', 'twin-verify-param-names', FL, "    def verify(self, subj, sigbytes, hash_alg):\n        try:\n            self.__pubkey__().verify(sigbytes, subj, ec.ECDSA(hash_alg))",
+  "    def verify(self, data, sig, halg):\n        try:\n            self.__pubkey__().verify(sig, data, ec.ECDSA(halg))")
+M('C01', 'ok-flag-never-cleared', FL, _DSA_VERIFY,
+  "        ok = True\n        try:\n            self.__pubkey__().verify(sigbytes, subj, hash_alg)\n        except InvalidSignature:\n            pass\n        return ok", 'C01.3')
+M('C01', 'ok-flag-set-before-call', FL, _DSA_VERIFY,
+  "        ok = False\n        try:\n            ok = True\n            self.__pubkey__().verify(sigbytes, subj, hash_alg)\n        except InvalidSignature:\n            pass\n        return ok", 'C01.3')
+M('C01', 'ecdsa-args-swapped', FL, "            self.__pubkey__().verify(sigbytes, subj, ec.ECDSA(hash_alg))", "            self.__pubkey__().verify(subj, sigbytes, ec.ECDSA(hash_alg))", 'C01.3')
+M('C01', 'eddsa-fixed-prehash', FL, "        digest = hashes.Hash(hash_alg, backend=default_backend())\n        digest.update(subj)\n        subj = digest.finalize()\n        try:",
+  "        digest = hashes.Hash(hashes.SHA256(), backend=default_backend())\n        digest.update(subj)\n        subj = digest.finalize()\n        try:", 'C01.3')
+# ---- C01.4 / C17.4 (record model)
+T('C01', 'twin-record-keywords', TY, _REC, "        self._subjects.append(self._sigsubj(issues=issues, by=by, signature=signature, subject=subject))")
+T('C01', 'twin-record-temp', TY, _REC, "        entry = self._sigsubj(subject=subject, signature=signature, by=by, issues=issues)\n        self._subjects.append(entry)")
+M('C01', 'record-fields-swapped', TY, _REC, "        self._subjects.append(self._sigsubj(issues, by, subject, signature))", 'C01.4')
+M('C01', 'record-keywords-swapped', TY, _REC, "        self._subjects.append(self._sigsubj(issues=issues, by=by, signature=subject, subject=signature))", 'C01.4')
+M('C01', 'default-advisory-only', TY, "            issues = SecurityIssues(0xFF)", "            issues = SecurityIssues.InsecureCurve", 'C01.4')
+M('C17', 'default-revoked-only', TY, "            issues = SecurityIssues(0xFF)", "            issues = SecurityIssues.Revoked", 'C17.4')
+M('C17', 'record-verdict-dropped', TY, _REC, "        self._subjects.append(self._sigsubj(SecurityIssues.OK if issues is None else issues, by, signature, subject))", 'C17.4',
+  more=[(TY, "        if issues is None:\n            from .constants import SecurityIssues\n            issues = SecurityIssues(0xFF)\n", "        from .constants import SecurityIssues\n")])
+# ---- C17.1 (truth table of the predicate)
+T('C17', 'twin-pred-loop', CO, _PRED,
+  "        for flag in (SecurityIssues.WrongSig, SecurityIssues.Expired, SecurityIssues.Disabled, SecurityIssues.Invalid, SecurityIssues.NoSelfSignature):\n            if flag in self:\n                return True\n        return False")
+T('C17', 'twin-pred-or-chain', CO, _PRED,
+  "        return (SecurityIssues.WrongSig in self or SecurityIssues.Expired in self or SecurityIssues.Disabled in self\n                or SecurityIssues.Invalid in self or SecurityIssues.NoSelfSignature in self)")
+T('C17', 'twin-pred-int-mask', CO, _PRED, "        return (self.value & 0x417) > 0")
+T('C17', 'twin-pred-not-disjoint', CO, _PRED,
+  "        failing = SecurityIssues.WrongSig | SecurityIssues.Expired | SecurityIssues.Disabled | SecurityIssues.Invalid | SecurityIssues.NoSelfSignature\n        return not (self & failing) == SecurityIssues(0)")
+M('C17', 'pred-any-lacks-invalid', CO, _PRED,
+  "        return any(f in self for f in (SecurityIssues.WrongSig, SecurityIssues.Expired, SecurityIssues.Disabled, SecurityIssues.NoSelfSignature))", 'C17.1')
+M('C17', 'pred-all-of', CO, _PRED,
+  "        return all(f in self for f in (SecurityIssues.WrongSig, SecurityIssues.Expired, SecurityIssues.Disabled, SecurityIssues.Invalid, SecurityIssues.NoSelfSignature))", 'C17.1')
+M('C17', 'pred-combined-mask-in', CO, _PRED,
+  "        return (SecurityIssues.WrongSig | SecurityIssues.Expired | SecurityIssues.Disabled | SecurityIssues.Invalid | SecurityIssues.NoSelfSignature) in self", 'C17.1')
+M('C17', 'pred-int-mask-lacks-noselfsig', CO, _PRED, "        return (self.value & 0x17) > 0", 'C17.1')
+M('C17', 'pred-loop-else-true', CO, _PRED,
+  "        for flag in (SecurityIssues.WrongSig, SecurityIssues.Expired, SecurityIssues.Disabled, SecurityIssues.Invalid, SecurityIssues.NoSelfSignature):\n            if flag not in self:\n                return False\n        return True", 'C17.1')
+M('C17', 'pred-advisory-pair', CO, _PRED,
+  "        if SecurityIssues.InsecureCurve in self and SecurityIssues.BrokenAsymmetricFunc in self:\n            return True\n" + _PRED, 'C17.1')
+# ---- C17.2 (selectors decided per truth-table row, loop or comprehension)
+T('C17', 'twin-good-loop-continue', TY, _GOOD,
+  "        for sigsub in self._subjects:\n            verdict = sigsub.issues\n            if verdict and verdict.causes_signature_verify_to_fail:\n                continue\n            yield sigsub")
+T('C17', 'twin-bad-index', TY, _BAD,
+  "        yield from (sigsub for sigsub in self._subjects if sigsub[0] and sigsub[0].causes_signature_verify_to_fail)")
+T('C17', 'twin-bool-not-any', TY, _BOOL,
+  "        return not any(\n            sigsub.issues is not SecurityIssues.OK\n            and not (sigsub.issues and not sigsub.issues.causes_signature_verify_to_fail)\n            for sigsub in self._subjects\n        )")
+T('C17', 'twin-and-extend', TY, "        self._subjects += other._subjects\n        return self", "        self._subjects.extend(other._subjects)\n        return self")
+M('C17', 'good-loop-polarity', TY, _GOOD,
+  "        for sigsub in self._subjects:\n            verdict = sigsub.issues\n            if not verdict or verdict.causes_signature_verify_to_fail:\n                yield sigsub", 'C17.2')
+M('C17', 'bad-loop-continue-wrong', TY, _BAD,
+  "        for sigsub in self._subjects:\n            verdict = sigsub.issues\n            if not verdict:\n                continue\n            yield sigsub", 'C17.2')
+M('C17', 'bool-loop-advisory-fails', TY, _BOOL,
+  "        for sigsub in self._subjects:\n            if sigsub.issues is SecurityIssues.OK:\n                continue\n            return False\n        return True", 'C17.2')
+M('C17', 'bool-loop-first-decides', TY, _BOOL,
+  "        for sigsub in self._subjects:\n            if sigsub.issues is SecurityIssues.OK or not sigsub.issues.causes_signature_verify_to_fail:\n                return True\n        return False", 'C17.2')
+M('C17', 'bool-ignores-predicate', TY, _BOOL,
+  "        for sigsub in self._subjects:\n            if sigsub.issues is None:\n                return False\n        return True", 'C17.2')
+M('C17', 'bad-skips-first-record', TY, _BAD,
+  "        for sigsub in self._subjects[1:]:\n            if sigsub.issues and sigsub.issues.causes_signature_verify_to_fail:\n                yield sigsub", 'C17.2')
+M('C17', 'and-replaces', TY, "        self._subjects += other._subjects\n        return self", "        self._subjects = other._subjects\n        return self", 'C17.2')
+M('C17', 'and-returns-other', TY, "        self._subjects += other._subjects\n        return self", "        self._subjects += other._subjects\n        return other", 'C17.2')
+M('C17', 'and-extends-self', TY, "        self._subjects += other._subjects\n        return self", "        self._subjects.extend(self._subjects)\n        return self", 'C17.2')
+# ---- C17.3 / C17.4 / C17.5 (PGPKey.verify rows; issue set as a flag expression over its sources)
+_VERIFY_LOOP_TAIL_CONTINUE = """                issues = signature_issues | subkey_issues
+                if issues and issues.causes_signature_verify_to_fail:
+                    sigv.add_sigsubj(sig, self, subj, issues)
+                    continue
+
+                verified = self._key.verify(sig.hashdata(subj), sig.__sig__, getattr(hashes, sig.hash_algorithm.name)())
+                if verified is NotImplemented:
+                    raise NotImplementedError(sig.key_algorithm)
+
+                sigv.add_sigsubj(sig, self, subj, SecurityIssues.WrongSig if not verified else SecurityIssues.OK)
+"""
+T('C17', 'twin-guard-continue', PGP, _VERIFY_LOOP_TAIL, _VERIFY_LOOP_TAIL_CONTINUE)
+T('C17', 'twin-issues-order', PGP, "                issues = signature_issues | subkey_issues", "                issues = subkey_issues | signature_issues")
+T('C17', 'twin-issues-names', PGP, "                issues = signature_issues | subkey_issues\n                if issues and issues.causes_signature_verify_to_fail:\n                    sigv.add_sigsubj(sig, self, subj, issues)",
+  "                found = signature_issues | subkey_issues\n                if found.causes_signature_verify_to_fail:\n                    sigv.add_sigsubj(sig, self, subj, found)")
+T('C17', 'twin-mask-literal', PGP, "                    signature_issues &= ~SecurityIssues.HashFunctionNotCollisionResistant",
+  "                    signature_issues = signature_issues & ~SecurityIssues(1 << 6)")
+T('C17', 'twin-record-once-after', PGP, _VERIFY_LOOP_TAIL,
+  "                issues = signature_issues | subkey_issues\n                if issues and issues.causes_signature_verify_to_fail:\n                    outcome = issues\n                else:\n                    verified = self._key.verify(sig.hashdata(subj), sig.__sig__, getattr(hashes, sig.hash_algorithm.name)())\n                    if verified is NotImplemented:\n                        raise NotImplementedError(sig.key_algorithm)\n\n                    outcome = SecurityIssues.WrongSig if not verified else SecurityIssues.OK\n                sigv.add_sigsubj(sig, self, subj, outcome)\n")
+M('C17', 'continue-skips-record', PGP, "                    sigv.add_sigsubj(sig, self, subj, issues)\n", "                    continue\n", 'C17.3')
+M('C17', 'branch-on-primitives-only', PGP, "                if issues and issues.causes_signature_verify_to_fail:",
+  "                if signature_issues and signature_issues.causes_signature_verify_to_fail:", 'C17')
+M('C17', 'disqualified-records-primitives', PGP, "                    sigv.add_sigsubj(sig, self, subj, issues)\n", "                    sigv.add_sigsubj(sig, self, subj, signature_issues)\n", 'C17.4')
+M('C17', 'disqualified-records-outer-subject', PGP, "                    sigv.add_sigsubj(sig, self, subj, issues)\n", "                    sigv.add_sigsubj(sig, self, subject, issues)\n", 'C17.4')
+M('C17', 'branch-or', PGP, "                if issues and issues.causes_signature_verify_to_fail:", "                if issues or issues.causes_signature_verify_to_fail:", 'C17.4')
+M('C17', 'guard-continue-dropped', PGP, _VERIFY_LOOP_TAIL, _VERIFY_LOOP_TAIL_CONTINUE.replace("                    continue\n", ""), 'C17')
+M('C17', 'mask-expired-when-self-verifying', PGP, "                    signature_issues &= ~SecurityIssues.HashFunctionNotCollisionResistant",
+  "                    subkey_issues &= ~SecurityIssues.Expired", 'C17.5')
+M('C17', 'mask-all-hash-bits', PGP, "                    signature_issues &= ~SecurityIssues.HashFunctionNotCollisionResistant",
+  "                    signature_issues &= ~(SecurityIssues.HashFunctionNotCollisionResistant | SecurityIssues.NoSelfSignature)", 'C17.5')
+M('C17', 'issues-only-soundness', PGP, "                issues = signature_issues | subkey_issues", "                issues = subkey_issues | subkey_issues", 'C17.5')
+M('C17', 'issues-xor', PGP, "                issues = signature_issues | subkey_issues", "                issues = signature_issues ^ subkey_issues", 'C17')
+# ---- further spellings of the same functions (generalisation guards)
+T('C17', 'twin-pred-len-list', CO, _PRED,
+  "        hits = [f for f in (SecurityIssues.WrongSig, SecurityIssues.Expired, SecurityIssues.Disabled, SecurityIssues.Invalid, SecurityIssues.NoSelfSignature) if f & self]\n        return len(hits) > 0")
+T('C17', 'twin-pred-mask-loop', CO, _PRED,
+  "        mask = 0\n        for f in (SecurityIssues.WrongSig, SecurityIssues.Expired, SecurityIssues.Disabled, SecurityIssues.Invalid, SecurityIssues.NoSelfSignature):\n            mask |= f\n        return bool(self & mask)")
+T('C17', 'twin-pred-value-ne', CO, _PRED,
+  "        failing = SecurityIssues.WrongSig | SecurityIssues.Expired | SecurityIssues.Disabled | SecurityIssues.Invalid | SecurityIssues.NoSelfSignature\n        return (self & failing).value != 0")
+T('C17', 'twin-good-returns-iter', TY, _GOOD,
+  "        return iter([entry for entry in self._subjects if not (entry.issues and entry.issues.causes_signature_verify_to_fail)])")
+T('C17', 'twin-default-ifexp', TY, "        if issues is None:\n            from .constants import SecurityIssues\n            issues = SecurityIssues(0xFF)\n" + _REC,
+  "        from .constants import SecurityIssues\n        verdict = SecurityIssues(0xFF) if issues is None else issues\n        self._subjects.append(self._sigsubj(verdict, by, signature, subject))")
+T('C17', 'twin-fail-flag-hoisted', PGP, "                if issues and issues.causes_signature_verify_to_fail:\n                    sigv.add_sigsubj(sig, self, subj, issues)",
+  "                disqualified = bool(issues) and issues.causes_signature_verify_to_fail\n                if disqualified:\n                    sigv.add_sigsubj(sig, self, subj, issues)")
+T('C01', 'twin-key-alias', PGP, "                    verified = self._key.verify(sig.hashdata(subj), sig.__sig__, getattr(hashes, sig.hash_algorithm.name)())",
+  "                    keypkt = self._key\n                    verified = keypkt.verify(sig.hashdata(subj), sig.__sig__, getattr(hashes, sig.hash_algorithm.name)())")
+T('C01', 'twin-subkey-alias', PGP, "                sigv &= self.subkeys[sig.signer].verify(subj, sig)",
+  "                signing_subkey = self.subkeys[sig.signer]\n                sigv &= signing_subkey.verify(subj, sig)")
+_EXPIRED = "        expires = self.expires_at\n        if expires is not None:\n            return expires <= datetime.now(timezone.utc)\n\n        return False"
+T('C17', 'twin-expired-now-first', PGP, "            return expires <= datetime.now(timezone.utc)", "            now = datetime.now(timezone.utc)\n            return now >= expires")
+T('C17', 'twin-expired-guard-first', PGP, _EXPIRED,
+  "        deadline = self.expires_at\n        if deadline is None:\n            return False\n\n        return not deadline > datetime.now(timezone.utc)")
+M('C17', 'expired-inverted', PGP, "            return expires <= datetime.now(timezone.utc)", "            return expires >= datetime.now(timezone.utc)", 'C17.5')
+M('C17', 'expired-vs-created', PGP, "            return expires <= datetime.now(timezone.utc)", "            return expires <= self.created", 'C17.5')
+M('C17', 'expired-without-expiry', PGP, _EXPIRED,
+  "        expires = self.expires_at\n        if expires is None:\n            return self.created <= datetime.now(timezone.utc)\n\n        return expires <= datetime.now(timezone.utc)", 'C17.5')
+
 # =============================================================================================== C12
 M('C12', 'preload-i-plus-1', FL, "            _h.update(b'\\x00' * i)", "            _h.update(b'\\x00' * (i + 1))", 'C12.1')
 M('C12', 'pass-before-salt', FL, "        hashdata = ((hsalt + hpass) * hcount) + (hsalt + hpass)[:hleft]", "        hashdata = ((hpass + hsalt) * hcount) + (hpass + hsalt)[:hleft]", 'C12.1')
